@@ -210,6 +210,7 @@ def audit_axioms(pid):
     ns = ns.group(1) if ns else ""
     names = re.findall(r"^theorem\s+([A-Za-z_][\w'.]*)", src, re.M)
     audit = os.path.join(LEAN, "XMT", "Audit", pid + ".lean")
+    os.makedirs(os.path.dirname(audit), exist_ok=True)  # git-ignored directory: absent in a fresh checkout
     text = "import XMT.Props.%s\n" % pid + "".join("#print axioms %s.%s\n" % (ns, n) for n in names)
     if not os.path.exists(audit) or open(audit).read() != text:
         open(audit, "w").write(text)
